@@ -608,6 +608,9 @@ package keeper
 
 //@ func Keeper.GetAllConsumersWithIBCClients pure
 //@ ensures [frame] S == old(S) && E == old(E) && X == old(X)
+//@ loop 1 invariant [collect] len(consumerIds) == iterator.pos && 0 <= iterator.pos && iterator.pos <= iterator.n
+//@ loop 1 invariant [pure] S == old(S) && E == old(E) && X == old(X)
+//@ ensures [one-id-per-client-record] len(result) == iterator.n
 
 //@ func Keeper.QueueVSCPackets
 //@ precall ComputeConsumerNextValSet [candidate-sets] $GetLastBondedValidators.called && $ComputeConsumerNextValSet.bondedValidators == $GetLastBondedValidators.ret0 && $GetLastProviderConsensusActiveValidators.called && $ComputeConsumerNextValSet.activeValidators == $GetLastProviderConsensusActiveValidators.ret0
@@ -661,6 +664,16 @@ package keeper
 
 //@ func Keeper.HasActiveConsumerValidator pure
 //@ ensures [frame] S == old(S) && E == old(E) && X == old(X)
+//@ let cur := old(k.GetConsumerValSet(ctx, consumerId))
+//@ loop 1 invariant [idx] 0 <= _i && _i <= len(activeValidators)
+//@ loop 1 invariant [marked] forall j int :: 0 <= j && j < _i ==> activeValidators[j].GetConsAddr().1 == nil && has(isActiveValidator, types.NewProviderConsAddress(activeValidators[j].GetConsAddr().0).String()) && isActiveValidator[types.NewProviderConsAddress(activeValidators[j].GetConsAddr().0).String()]
+//@ loop 1 invariant [only-true] forall s string :: has(isActiveValidator, s) ==> isActiveValidator[s]
+//@ loop 2 invariant [idx] 0 <= _i && _i <= len(currentValidatorSet)
+//@ loop 2 invariant [none-so-far] forall j int :: 0 <= j && j < _i ==> !(has(isActiveValidator, types.NewProviderConsAddress(currentValidatorSet[j].ProviderConsAddr).String()) && isActiveValidator[types.NewProviderConsAddress(currentValidatorSet[j].ProviderConsAddr).String()])
+//@ loop 2 invariant [marked] forall j int :: 0 <= j && j < len(activeValidators) ==> has(isActiveValidator, types.NewProviderConsAddress(activeValidators[j].GetConsAddr().0).String())
+//@ ensures [found-is-active-member] result1 == nil && result0 ==> (exists j int :: 0 <= j && j < len(currentValidatorSet) && has(isActiveValidator, types.NewProviderConsAddress(currentValidatorSet[j].ProviderConsAddr).String()))
+//@ ensures [not-found-means-none] result1 == nil && !result0 ==> (forall j int, a int :: 0 <= j && j < len(currentValidatorSet) && 0 <= a && a < len(activeValidators) ==> types.NewProviderConsAddress(currentValidatorSet[j].ProviderConsAddr).String() != types.NewProviderConsAddress(activeValidators[a].GetConsAddr().0).String())
+//@ ensures [against-stored-set] result1 == nil ==> cur.1 == nil && currentValidatorSet == cur.0
 
 //@ func Keeper.LaunchConsumer
 //@ ensures [valset-args] result == nil ==> $ComputeConsumerNextValSet.called && $ComputeConsumerNextValSet.bondedValidators == bondedValidators && $ComputeConsumerNextValSet.activeValidators == activeValidators && $ComputeConsumerNextValSet.consumerId == consumerId && len($ComputeConsumerNextValSet.currentConsumerValSet) == 0
